@@ -12,9 +12,14 @@ int cmd_vatti(const Args& a) {
   Rng r((uint64_t)argi(a, "seed", 1)); long long n = argi(a, "n", 10); int R = (int)argi(a, "R", 48);
   std::ofstream os(args(a, "out", "/dev/stdout")); long long ncase = 0, nexec = 0;
   for (long long b = 0; b < n; ++b) {
-    Paths64 S, C; if (!gen_gps(r, R, (int)argi(a, "maxpaths", 2), (int)argi(a, "maxv", 6), S, C)) continue;
-    bool horz = false; for (auto* ps : {&S, &C}) for (auto& p : *ps) for (size_t i = 0; i < p.size(); ++i) if (p[i].y == p[(i + 1) % p.size()].y) horz = true;
+    Paths64 S, C;
+    if (args(a, "fam", "gps") == "walk") { int g = (int)argi(a, "grid", 6); int ns = (int)r.range(1, 2), nc = (int)r.range(0, 2); int mul = (int)argi(a, "mul", 1);
+      for (int k = 0; k < ns; ++k) S.push_back(rect_walk(r, g, (int)r.range(2, 5), false)); for (int k = 0; k < nc; ++k) C.push_back(rect_walk(r, g, (int)r.range(2, 5), false));
+      for (auto* ps : {&S, &C}) for (auto& p : *ps) for (auto& q : p) { q.x *= mul; q.y *= mul; } }
+    else if (!gen_gps(r, R, (int)argi(a, "maxpaths", 2), (int)argi(a, "maxv", 6), S, C)) continue;
+    bool horz = false; if (args(a, "fam", "gps") == "walk") goto emitcase; for (auto* ps : {&S, &C}) for (auto& p : *ps) for (size_t i = 0; i < p.size(); ++i) if (p[i].y == p[(i + 1) % p.size()].y) horz = true;
     if (horz) continue;
+    emitcase:
     ++ncase;
     std::string what = "\"case\":{\"subj\":" + jpaths(S) + ",\"clip\":" + jpaths(C) + ",\"emb\":0}";
     guarded(os, what, 60, [&](std::ostream& o) {
